@@ -119,7 +119,13 @@ type FS struct {
 	armed         bool
 	armedSeq      int           // number of calls made while armed
 	faultArmedIdx map[int]Fault // by armed-call index (1-based)
-	Perturb       func(c *Call)
+	// IOUnit is what Open and Create announce as iounit (0: nothing, as most backends)
+	IOUnit  uint32
+	Perturb func(c *Call)
+	// LateHook runs as the very last thing of a Walk / WalkGetAttr call, after all
+	// bookkeeping of this backend (a check can line up several calls there so that
+	// they return into the server at the same instant)
+	LateHook func(c *Call)
 	// IOScript lets a check shorten or fail individual ReadAt/WriteAt calls:
 	// it returns the maximum count to transfer (-1 = no limit) and an error.
 	IOScript  func(op string, idx int, off int64, n int) (limit int, err error)
@@ -561,6 +567,9 @@ func (h *Handle) Walk(names []string) ([]p9.QID, p9.File, error) {
 		c.New = nh.ID
 	}
 	h.fs.exit(c, errno)
+	if lh := h.fs.LateHook; lh != nil {
+		lh(c)
+	}
 	if errno != 0 {
 		return nil, nil, h.fs.errOf(errno)
 	}
@@ -618,6 +627,9 @@ func (h *Handle) WalkGetAttr(names []string) ([]p9.QID, p9.File, p9.AttrMask, p9
 		h.fs.treeMu.Unlock()
 	}
 	h.fs.exit(c, errno)
+	if lh := h.fs.LateHook; lh != nil && errno == 0 {
+		lh(c)
+	}
 	if errno != 0 {
 		if nh != nil {
 			nh.markClosedInternal()
@@ -752,7 +764,7 @@ func (h *Handle) Open(mode p9.OpenFlags) (p9.QID, uint32, error) {
 	if e != 0 {
 		return p9.QID{}, 0, h.fs.errOf(e)
 	}
-	return q, 0, nil
+	return q, h.fs.IOUnit, nil
 }
 
 func (h *Handle) captured() *memtree.Inode {
@@ -998,7 +1010,7 @@ func (h *Handle) Create(name string, flags p9.OpenFlags, permissions p9.FileMode
 	if e != 0 {
 		return nil, p9.QID{}, 0, h.fs.errOf(e)
 	}
-	return nh, q, 0, nil
+	return nh, q, h.fs.IOUnit, nil
 }
 
 // Mkdir implements p9.File.
